@@ -229,10 +229,10 @@ fn s_euclid<T: IntEl>(a: T, b: T, rem: bool) -> Option<T> {
     }
 }
 
-/// All binary integer lifts on one operand pair.  Returns the first disagreement with the
-/// per-lane scalar results.  `run_euclid_panics`: also execute the non-checked Euclid forms
+/// All binary integer lifts on one operand pair.  Returns, for every lifted op, its first
+/// disagreement with the per-lane scalar results (every op is executed whatever the others do).  `run_euclid_panics`: also execute the non-checked Euclid forms
 /// when some lane's scalar form panics (each such execution costs three unwinds).
-fn check_bin_ops<T: IntEl, V: IntVec<T>>(va: &V, vb: &V, aa: &[T], bb: &[T], run_euclid_panics: bool, cnt: &mut OpCnt) -> Option<Fail> {
+fn check_bin_ops<T: IntEl, V: IntVec<T>>(va: &V, vb: &V, aa: &[T], bb: &[T], run_euclid_panics: bool, cnt: &mut OpCnt) -> Vec<Fail> {
     let n = V::DIM;
     // `aa`/`bb` are the values the caller put into `va`/`vb` (lane order); results are read
     // back through the raw fields into `gg`
@@ -402,36 +402,50 @@ fn check_bin_ops<T: IntEl, V: IntVec<T>>(va: &V, vb: &V, aa: &[T], bb: &[T], run
         }};
     }
     cnt.bin += 1;
-    chk_op!("checked_add", CheckedAdd, checked_add);
-    chk_op!("checked_sub", CheckedSub, checked_sub);
-    chk_op!("checked_mul", CheckedMul, checked_mul);
-    chk_op!("checked_div", CheckedDiv, checked_div);
-    chk_op!("checked_rem", CheckedRem, checked_rem);
-    val_op!("wrapping_add", WrappingAdd, wrapping_add);
-    val_op!("wrapping_sub", WrappingSub, wrapping_sub);
-    val_op!("wrapping_mul", WrappingMul, wrapping_mul);
-    val_op!("saturating_add", SaturatingAdd, saturating_add);
-    val_op!("saturating_sub", SaturatingSub, saturating_sub);
-    val_op!("saturating_mul", SaturatingMul, saturating_mul);
-    ovf_op!("overflowing_add", OverflowingAdd, overflowing_add);
-    ovf_op!("overflowing_sub", OverflowingSub, overflowing_sub);
-    ovf_op!("overflowing_mul", OverflowingMul, overflowing_mul);
-    chk_op!("checked_div_euclid", CheckedEuclid, checked_div_euclid);
-    chk_op!("checked_rem_euclid", CheckedEuclid, checked_rem_euclid);
+    let mut fails: Vec<Fail> = Vec::new();
+    // each op runs in its own closure so that `return Some(..)` in the op macros ends that op only
+    macro_rules! run {
+        ($body:expr) => {
+            if let Some(f) = (|| -> Option<Fail> {
+                $body;
+                None
+            })() {
+                fails.push(f);
+            }
+        };
+    }
+    run!(chk_op!("checked_add", CheckedAdd, checked_add));
+    run!(chk_op!("checked_sub", CheckedSub, checked_sub));
+    run!(chk_op!("checked_mul", CheckedMul, checked_mul));
+    run!(chk_op!("checked_div", CheckedDiv, checked_div));
+    run!(chk_op!("checked_rem", CheckedRem, checked_rem));
+    run!(val_op!("wrapping_add", WrappingAdd, wrapping_add));
+    run!(val_op!("wrapping_sub", WrappingSub, wrapping_sub));
+    run!(val_op!("wrapping_mul", WrappingMul, wrapping_mul));
+    run!(val_op!("saturating_add", SaturatingAdd, saturating_add));
+    run!(val_op!("saturating_sub", SaturatingSub, saturating_sub));
+    run!(val_op!("saturating_mul", SaturatingMul, saturating_mul));
+    run!(ovf_op!("overflowing_add", OverflowingAdd, overflowing_add));
+    run!(ovf_op!("overflowing_sub", OverflowingSub, overflowing_sub));
+    run!(ovf_op!("overflowing_mul", OverflowingMul, overflowing_mul));
+    run!(chk_op!("checked_div_euclid", CheckedEuclid, checked_div_euclid));
+    run!(chk_op!("checked_rem_euclid", CheckedEuclid, checked_rem_euclid));
     if !pred_any || run_euclid_panics {
         cnt.euclid += 1;
     }
-    euclid_op!("div_euclid", div_euclid, false);
-    euclid_op!("rem_euclid", rem_euclid, true);
-    None
+    run!(euclid_op!("div_euclid", div_euclid, false));
+    run!(euclid_op!("rem_euclid", rem_euclid, true));
+    fails
 }
 
 /// The unary integer lifts (`checked_neg`, `wrapping_neg`).
-fn check_un_ops<T: IntEl, V: IntVec<T>>(va: &V, cnt: &mut OpCnt) -> Option<Fail> {
+fn check_un_ops<T: IntEl, V: IntVec<T>>(va: &V, cnt: &mut OpCnt) -> Vec<Fail> {
     let n = V::DIM;
     cnt.un += 1;
     let isolate = |k: usize| -> V { V::from_fn(|i| if i == k { va.get(i) } else { T::zero() }) };
+    let mut fails: Vec<Fail> = Vec::new();
     // checked_neg
+    let first = (|| -> Option<Fail> {
     let mut bad_lane = None;
     for k in 0..n {
         if <T as CheckedNeg>::checked_neg(va.at(k)).is_none() {
@@ -460,6 +474,10 @@ fn check_un_ops<T: IntEl, V: IntVec<T>>(va: &V, cnt: &mut OpCnt) -> Option<Fail>
             }
         }
     }
+    None
+    })();
+    fails.extend(first);
+    let second = (|| -> Option<Fail> {
     match guarded(|| <V as WrappingNeg>::wrapping_neg(va)) {
         Err(p) => return Some(Fail { op: "wrapping_neg", class: "panic", what: "panic_where_value_promised", detail: format!("wrapping_neg panicked ({}); a={}", p, fmt_v(va)) }),
         Ok(g) => {
@@ -474,6 +492,9 @@ fn check_un_ops<T: IntEl, V: IntVec<T>>(va: &V, cnt: &mut OpCnt) -> Option<Fail>
         }
     }
     None
+    })();
+    fails.extend(second);
+    fails
 }
 
 // ------------------------------------------------------------------------------------
@@ -505,6 +526,7 @@ fn sweep_item<T: IntEl, V: IntVec<T>>(cfg: &Config, sub: &mut Sub, item: u64, la
     let val = |k: u32| T::wrap_from(T::lo().wide() + k as i128);
     let mut cnt = OpCnt::default();
     let (mut eval, mut nontrivial, mut viol) = (0u64, 0u64, 0u32);
+    let mut seen_kinds: Vec<(&'static str, &'static str)> = Vec::new();
     let unary = variant >= 4;
     let total: u32 = if unary { 256 } else { 65536 };
     let mut pair = 0u32;
@@ -520,7 +542,7 @@ fn sweep_item<T: IntEl, V: IntVec<T>>(cfg: &Config, sub: &mut Sub, item: u64, la
         }
         let (ai, bi) = if unary { (this, 0) } else { (this >> 8, this & 255) };
         let (a, b) = (val(ai), val(bi));
-        let fail = if unary {
+        let fails = if unary {
             let base = zero;
             let va = V::from_fn(|i| if i == lane { a } else { match other { Some((o, fa, _)) if o == i => fa, _ => base } });
             check_un_ops::<T, V>(&va, &mut cnt)
@@ -535,26 +557,27 @@ fn sweep_item<T: IntEl, V: IntVec<T>>(cfg: &Config, sub: &mut Sub, item: u64, la
             let run_panics = variant != 3 || (ai * 7 + bi) % 16 == 0 || ai == 0 || ai == 255 || bi == 0 || bi == 255 || only_pair.is_some();
             check_bin_ops::<T, V>(&va, &vb, &aa, &bb, run_panics, &mut cnt)
         };
-        match fail {
-            None => {
-                eval += 1;
-                if !(variant == 0 && a == one && b == one) {
-                    nontrivial += 1;
-                }
+        if fails.is_empty() {
+            eval += 1;
+            if !(variant == 0 && a == one && b == one) {
+                nontrivial += 1;
             }
-            Some(f) => {
+        } else {
+            // one verdict per case; every failing op of the case is recorded under its own signature
+            for (fi, f) in fails.into_iter().enumerate() {
                 viol += 1;
                 let api = format!("{}::{}", kind, f.op);
-                let detail = format!("[swept lane {} of {}<{}>, {}] {}", lane, kind, T::NAME, VARIANT_NAMES[variant], f.detail);
+                // a broken lift fails on most of the space: keep the first witnesses of the item in full
+                let fresh = !seen_kinds.contains(&(f.op, f.what));
+                if fresh {
+                    seen_kinds.push((f.op, f.what));
+                }
+                let detail = if viol <= 40 || fresh { format!("[swept lane {} of {}<{}>, {}] {}", lane, kind, T::NAME, VARIANT_NAMES[variant], f.detail) } else { format!("[swept lane {} of {}<{}>, {}] a={:?} b={:?} (full detail is kept for the first 40 violations of a work item and the first of each kind)", lane, kind, T::NAME, VARIANT_NAMES[variant], a, b) };
                 let v = violation(PROP, sub, &api, T::NAME, f.class, f.what, detail, cfg.case_seed(), item << 16 | this as u64);
-                sub.violated(v);
-                if viol >= 24 && only_pair.is_none() {
-                    // a broken lift fails on most of the space: keep the witnesses, do not spend
-                    // the budget formatting millions of them
-                    for _ in pair..total {
-                        sub.inconclusive("item_abandoned_after_24_violations");
-                    }
-                    break;
+                if fi == 0 {
+                    sub.violated(v);
+                } else {
+                    sub.add_violation(v);
                 }
             }
         }
@@ -700,17 +723,21 @@ fn wide_case<T: IntEl, V: IntVec<T>>(cfg: &Config, sub: &mut Sub, idx: u64, mode
         h.i(av[i].wide()).i(bv[i].wide());
     }
     let mut cnt = OpCnt::default();
-    let f = check_bin_ops::<T, V>(&va, &vb, &av, &bv, true, &mut cnt).or_else(|| check_un_ops::<T, V>(&va, &mut cnt)).or_else(|| check_un_ops::<T, V>(&vb, &mut cnt));
+    let mut fails = check_bin_ops::<T, V>(&va, &vb, &av, &bv, true, &mut cnt);
+    fails.extend(check_un_ops::<T, V>(&va, &mut cnt));
+    fails.extend(check_un_ops::<T, V>(&vb, &mut cnt));
     cnt.flush(sub, V::NAME);
-    match f {
-        None => {
-            sub.sample(|| format!("{}<{}> mode {}: a={} b={}", V::NAME, T::NAME, mode, fmt_v(&va), fmt_v(&vb)));
-            sub.held(h.get(), true)
-        }
-        Some(f) => {
-            let api = format!("{}::{}", V::NAME, f.op);
-            let v = violation(PROP, sub, &api, T::NAME, f.class, f.what, format!("[{}<{}>, mode {}] {}", V::NAME, T::NAME, mode, f.detail), cfg.case_seed(), idx);
-            sub.violated(v)
+    if fails.is_empty() {
+        sub.sample(|| format!("{}<{}> mode {}: a={} b={}", V::NAME, T::NAME, mode, fmt_v(&va), fmt_v(&vb)));
+        sub.held(h.get(), true);
+    }
+    for (fi, f) in fails.into_iter().enumerate() {
+        let api = format!("{}::{}", V::NAME, f.op);
+        let v = violation(PROP, sub, &api, T::NAME, f.class, f.what, format!("[{}<{}>, mode {}] {}", V::NAME, T::NAME, mode, f.detail), cfg.case_seed(), idx);
+        if fi == 0 {
+            sub.violated(v);
+        } else {
+            sub.add_violation(v);
         }
     }
 }
@@ -1192,6 +1219,7 @@ fn cast_container<S: CastEl, D: CastEl>(cfg: &Config, sub: &mut Sub, idx: u64, r
             h.u(x.hb());
         }
         let mut bad: Option<(String, &'static str, &'static str, String)> = None;
+        let mut bad_num: Option<(String, &'static str, &'static str, String)> = None;
         // as_
         let api = format!("{}::as_", io.cname);
         sub.saw(&api);
@@ -1213,39 +1241,42 @@ fn cast_container<S: CastEl, D: CastEl>(cfg: &Config, sub: &mut Sub, idx: u64, r
             let first_fail = (0..io.n).find(|k| s_num(e[*k]).is_none());
             match do_num(&e) {
                 Err(p) => {
-                    if bad.is_none() {
-                        bad = Some((api, "panic", "panic_where_value_promised", format!("numcast panicked ({}) on elements {:?}", p, e)));
+                    if bad_num.is_none() {
+                        bad_num = Some((api, "panic", "panic_where_value_promised", format!("numcast panicked ({}) on elements {:?}", p, e)));
                     }
                 }
                 Ok(None) => {
-                    if first_fail.is_none() && bad.is_none() {
-                        bad = Some((api, "wrong_value", "none_iff_some_element_fails", format!("numcast [{}] returned None but NumCast::from succeeds on every element of {:?}", mode, e)));
+                    if first_fail.is_none() && bad_num.is_none() {
+                        bad_num = Some((api, "wrong_value", "none_iff_some_element_fails", format!("numcast [{}] returned None but NumCast::from succeeds on every element of {:?}", mode, e)));
                     }
                 }
                 Ok(Some(g)) => {
                     if let Some(k) = first_fail {
-                        if bad.is_none() {
-                            bad = Some((api, "wrong_value", "none_iff_some_element_fails", format!("numcast [{}] returned Some({:?}) but <{} as NumCast>::from({:?}) (element {}) is None; input {:?}", mode, g, D::NAME, e[k], k, e)));
+                        if bad_num.is_none() {
+                            bad_num = Some((api, "wrong_value", "none_iff_some_element_fails", format!("numcast [{}] returned Some({:?}) but <{} as NumCast>::from({:?}) (element {}) is None; input {:?}", mode, g, D::NAME, e[k], k, e)));
                         }
                     } else {
                         for k in 0..io.n {
                             let x = s_num(e[k]).unwrap();
-                            if (g.len() != io.n || !g[k].same(x)) && bad.is_none() {
-                                bad = Some((api.clone(), "wrong_value", "element_value", format!("numcast [{}]: element {} is {:?}, NumCast::from({:?}) is {:?}; input {:?}, output {:?}", mode, k, g.get(k), e[k], x, e, g)));
+                            if (g.len() != io.n || !g[k].same(x)) && bad_num.is_none() {
+                                bad_num = Some((api.clone(), "wrong_value", "element_value", format!("numcast [{}]: element {} is {:?}, NumCast::from({:?}) is {:?}; input {:?}, output {:?}", mode, k, g.get(k), e[k], x, e, g)));
                             }
                         }
                     }
                 }
             }
         }
-        match bad {
-            None => {
-                sub.sample(|| format!("{} {} [{}]: {:?}", io.cname, ty, mode, e));
-                sub.held(h.get(), true)
-            }
-            Some((api, class, what, detail)) => {
-                let v = violation(PROP, sub, &api, &ty, class, what, detail, cfg.case_seed(), idx);
-                sub.violated(v)
+        let bads: Vec<_> = bad.into_iter().chain(bad_num).collect();
+        if bads.is_empty() {
+            sub.sample(|| format!("{} {} [{}]: {:?}", io.cname, ty, mode, e));
+            sub.held(h.get(), true);
+        }
+        for (bi, (api, class, what, detail)) in bads.into_iter().enumerate() {
+            let v = violation(PROP, sub, &api, &ty, class, what, detail, cfg.case_seed(), idx);
+            if bi == 0 {
+                sub.violated(v);
+            } else {
+                sub.add_violation(v);
             }
         }
     }
@@ -1411,8 +1442,9 @@ where
 }
 
 /// names: the six api names in the order cast, checked, saturating, wrapping, overflowing, unwrapped
-fn judge_az<S: CastEl + AzAll<D>, D: CastEl>(cname: &str, names: &[&str; 6], mode: &str, e: &[S], out: AzOut<D>) -> Option<(String, &'static str, &'static str, String)> {
+fn judge_az<S: CastEl + AzAll<D>, D: CastEl>(cname: &str, names: &[&str; 6], mode: &str, e: &[S], out: AzOut<D>) -> Vec<(String, &'static str, &'static str, String)> {
     let n = e.len();
+    let mut bads: Vec<(String, &'static str, &'static str, String)> = Vec::new();
     // value-returning forms: panic iff some element's scalar form panics, else element-wise
     let value_form = |name: &str, got: &Result<Vec<D>, String>, scalar: &dyn Fn(S) -> D| -> Option<(String, &'static str, &'static str, String)> {
         let api = format!("{}::{}", cname, name);
@@ -1433,20 +1465,12 @@ fn judge_az<S: CastEl + AzAll<D>, D: CastEl>(cname: &str, names: &[&str; 6], mod
             }
         }
     };
-    if let Some(b) = value_form(names[0], &out.cast, &|x| az::Cast::<D>::cast(x)) {
-        return Some(b);
-    }
-    if let Some(b) = value_form(names[2], &out.saturating, &|x| az::SaturatingCast::<D>::saturating_cast(x)) {
-        return Some(b);
-    }
-    if let Some(b) = value_form(names[3], &out.wrapping, &|x| az::WrappingCast::<D>::wrapping_cast(x)) {
-        return Some(b);
-    }
-    if let Some(b) = value_form(names[5], &out.unwrapped, &|x| az::UnwrappedCast::<D>::unwrapped_cast(x)) {
-        return Some(b);
-    }
+    bads.extend(value_form(names[0], &out.cast, &|x| az::Cast::<D>::cast(x)));
+    bads.extend(value_form(names[2], &out.saturating, &|x| az::SaturatingCast::<D>::saturating_cast(x)));
+    bads.extend(value_form(names[3], &out.wrapping, &|x| az::WrappingCast::<D>::wrapping_cast(x)));
+    bads.extend(value_form(names[5], &out.unwrapped, &|x| az::UnwrappedCast::<D>::unwrapped_cast(x)));
     // checked
-    {
+    bads.extend((|| -> Option<(String, &'static str, &'static str, String)> {
         let api = format!("{}::{}", cname, names[1]);
         let lanes: Vec<Result<Option<D>, String>> = e.iter().map(|x| guarded(|| az::CheckedCast::<D>::checked_cast(*x))).collect();
         let panic_lane = lanes.iter().position(|l| l.is_err());
@@ -1477,9 +1501,10 @@ fn judge_az<S: CastEl + AzAll<D>, D: CastEl>(cname: &str, names: &[&str; 6], mod
                 }
             }
         }
-    }
+        None
+    })());
     // overflowing
-    {
+    bads.extend((|| -> Option<(String, &'static str, &'static str, String)> {
         let api = format!("{}::{}", cname, names[4]);
         let lanes: Vec<Result<(D, bool), String>> = e.iter().map(|x| guarded(|| az::OverflowingCast::<D>::overflowing_cast(*x))).collect();
         let panic_lane = lanes.iter().position(|l| l.is_err());
@@ -1503,8 +1528,9 @@ fn judge_az<S: CastEl + AzAll<D>, D: CastEl>(cname: &str, names: &[&str; 6], mod
                 }
             }
         }
-    }
-    None
+        None
+    })());
+    bads
 }
 
 const AZ_TRAIT_NAMES: [&str; 6] = ["cast", "checked_cast", "saturating_cast", "wrapping_cast", "overflowing_cast", "unwrapped_cast"];
@@ -1543,15 +1569,18 @@ where
                         overflowing: guarded(|| v.overflowing_as::<D>()).map(|(r, f)| (r.to_vec(), f)),
                         unwrapped: guarded(|| v.unwrapped_as::<D>()).map(|r| r.to_vec()),
                     };
-                    let bad = judge_az::<S, D>(cname, &AZ_TRAIT_NAMES, mode, &e, t).or_else(|| judge_az::<S, D>(cname, &AZ_INHERENT_NAMES, mode, &e, inh));
-                    match bad {
-                        None => {
-                            sub.sample(|| format!("{} {} [{}]: {:?}", cname, ty, mode, e));
-                            sub.held(h.get(), true)
-                        }
-                        Some((api, class, what, detail)) => {
-                            let v = violation(PROP, sub, &api, &ty, class, what, detail, cfg.case_seed(), idx);
-                            sub.violated(v)
+                    let mut bads = judge_az::<S, D>(cname, &AZ_TRAIT_NAMES, mode, &e, t);
+                    bads.extend(judge_az::<S, D>(cname, &AZ_INHERENT_NAMES, mode, &e, inh));
+                    if bads.is_empty() {
+                        sub.sample(|| format!("{} {} [{}]: {:?}", cname, ty, mode, e));
+                        sub.held(h.get(), true);
+                    }
+                    for (bi, (api, class, what, detail)) in bads.into_iter().enumerate() {
+                        let v = violation(PROP, sub, &api, &ty, class, what, detail, cfg.case_seed(), idx);
+                        if bi == 0 {
+                            sub.violated(v);
+                        } else {
+                            sub.add_violation(v);
                         }
                     }
                 }
@@ -1740,7 +1769,7 @@ where
             for q in &pairs {
                 h.u(q.0.bits64()).u(q.1.bits64());
             }
-            let mut bad: Option<(String, &'static str, &'static str, String)> = None;
+            let mut bads: Vec<(String, &'static str, &'static str, String)> = Vec::new();
             let mut failing_focus = 0usize;
             for rel in 0..3 {
                 let api = format!("{}::{}", cname, REL_NAMES[rel]);
@@ -1759,25 +1788,27 @@ where
                 match got {
                     Ok(g) if g == exp => {}
                     Ok(g) => {
-                        if bad.is_none() {
-                            bad = Some((api, "wrong_value", "conjunction_of_elements", format!("{} [{} for {}] is {} but the per-element scalar verdicts are {:?} (conjunction {}); {}; lhs {:?} rhs {:?}", REL_NAMES[rel], mode, REL_NAMES[focus], g, lanes, exp, params, xs, ys)));
+                        {
+                            bads.push((api, "wrong_value", "conjunction_of_elements", format!("{} [{} for {}] is {} but the per-element scalar verdicts are {:?} (conjunction {}); {}; lhs {:?} rhs {:?}", REL_NAMES[rel], mode, REL_NAMES[focus], g, lanes, exp, params, xs, ys)));
                         }
                     }
                     Err(pn) => {
-                        if bad.is_none() {
-                            bad = Some((api, "panic", "panic_where_value_promised", format!("{} panicked ({}); {}; lhs {:?} rhs {:?}", REL_NAMES[rel], pn, params, xs, ys)));
+                        {
+                            bads.push((api, "panic", "panic_where_value_promised", format!("{} panicked ({}); {}; lhs {:?} rhs {:?}", REL_NAMES[rel], pn, params, xs, ys)));
                         }
                     }
                 }
             }
-            match bad {
-                None => {
-                    sub.sample(|| format!("{}<{}> [{} for {}]: lhs {:?} rhs {:?} eps {:?} max_rel {:?} ulps {}", cname, T::NAME, mode, REL_NAMES[focus], xs, ys, p.eps, p.max_rel, p.max_ulps));
-                    sub.held(h.get(), failing_focus <= 1)
-                }
-                Some((api, class, what, detail)) => {
-                    let v = violation(PROP, sub, &api, T::NAME, class, what, detail, cfg.case_seed(), idx);
-                    sub.violated(v)
+            if bads.is_empty() {
+                sub.sample(|| format!("{}<{}> [{} for {}]: lhs {:?} rhs {:?} eps {:?} max_rel {:?} ulps {}", cname, T::NAME, mode, REL_NAMES[focus], xs, ys, p.eps, p.max_rel, p.max_ulps));
+                sub.held(h.get(), failing_focus <= 1);
+            }
+            for (bi, (api, class, what, detail)) in bads.into_iter().enumerate() {
+                let v = violation(PROP, sub, &api, T::NAME, class, what, detail, cfg.case_seed(), idx);
+                if bi == 0 {
+                    sub.violated(v);
+                } else {
+                    sub.add_violation(v);
                 }
             }
         }
